@@ -118,7 +118,7 @@ func (x *Xlat) stdlib(st *State, fr *Frame, out *Outcomes, ce *ast.CallExpr, rec
 			Eq(Sel(res, App("+", SInt, SOff(s), i)), Sel(old, App("+", SInt, SOff(s), App("-", SInt, App("-", SInt, SLen(s), IntLit(1)), i)))))))
 		st.assume(Forall([]Bind{{"i!", SInt}}, Imp(Or(App("<", SBool, i, SOff(s)), App(">=", SBool, i, App("+", SInt, SOff(s), SLen(s)))),
 			Eq(Sel(res, i), Sel(old, i)))))
-		x.set(st, key, Sto(h, SArr(s), res))
+		x.setElems(st, key, es, h, Sto(h, SArr(s), res), touchedWindow(s, SLen(s)))
 		x.models["slices.Reverse: element i <-> len-1-i (A5)"] = true
 		return nil
 	case "sort.Slice", "sort.Ints", "sort.Float64s", "sort.SliceStable":
@@ -142,7 +142,7 @@ func (x *Xlat) stdlib(st *State, fr *Frame, out *Outcomes, ce *ast.CallExpr, rec
 			st.assume(Forall([]Bind{{"i!", SInt}, {"j!", SInt}}, Imp(And(inr(i), inr(j), App("<=", SBool, i, j)),
 				App("<=", SBool, Sel(res, App("+", SInt, SOff(s), i)), Sel(res, App("+", SInt, SOff(s), j))))))
 		}
-		x.set(st, key, Sto(h, SArr(s), res))
+		x.setElems(st, key, es, h, Sto(h, SArr(s), res), touchedWindow(s, SLen(s)))
 		x.models[full+": result is a permutation of the input (sortedness w.r.t. the comparator is not used) (A5)"] = true
 		return nil
 	case "maps.Clone":
@@ -211,8 +211,17 @@ func (x *Xlat) cloneSlice(st *State, s *Term, et types.Type, mincap *Term) *Term
 	i := Const("i!", SInt)
 	st.assume(Forall([]Bind{{"i!", SInt}}, Imp(And(App("<=", SBool, IntLit(0), i), App("<", SBool, i, SLen(s))),
 		Eq(Sel(fresh, i), Sel(Sel(h, SArr(s)), App("+", SInt, SOff(s), i))))))
-	x.set(st, key, Sto(h, a, fresh))
+	h2 := x.setElems(st, key, es, h, Sto(h, a, fresh), touchedArr(a))
 	c := x.ctx.Fresh("cap", SInt)
+	{
+		res := MkSlice(a, IntLit(0), SLen(s), IntLit(0))
+		_ = res
+		ib := Const("i!", SInt)
+		// contents over at(): element i of the clone equals element i of the source (for any capacity)
+		cb := Const("c!", SInt)
+		lhs := x.atTerm(h2, MkSlice(a, IntLit(0), SLen(s), cb), ib, es)
+		st.assume(Forall([]Bind{{"i!", SInt}, {"c!", SInt}}, Imp(And(App("<=", SBool, IntLit(0), ib), App("<", SBool, ib, SLen(s))), Eq(lhs, x.atTerm(h, s, ib, es))), []*Term{lhs}))
+	}
 	st.assume(App(">=", SBool, c, mincap))
 	st.assume(App(">=", SBool, c, SLen(s)))
 	return MkSlice(a, IntLit(0), SLen(s), c)
